@@ -12,7 +12,13 @@ RULE = ("configurations: kind fc/dl x byte order x 1-2 raw buffers (width 5, sca
         "non-trivial = every configuration; distinct = distinct configurations")
 
 CONFIGS = {
-    "quick": [("TdmsDaqmx", "TdmsDaqmx.cfg", {"RowSet": "{1, 3}", "KSet": "{2}"}, 4)],
+    "quick": [("TdmsDaqmx", "TdmsDaqmx.cfg", {"RowSet": "{1, 3}", "KSet": "{2}"}, 4),
+              # digital lines in multi-byte words at unaligned byte offsets (bit offsets 11, 27 in rows of 5 bytes)
+              ("TdmsDaqmx", "TdmsDaqmx.cfg", {"Kinds": '{"dl"}', "OffSet": "{3, 11, 27}", "SizeSet": "{1, 2}", "RowSet": "{2}",
+                                              "KSet": "{2}", "NBufs": "{1}"}, 2),
+              # a wide buffer followed by a narrow one: a cut inside a row of the first must not spill into the second
+              ("TdmsDaqmx", "TdmsDaqmx.cfg", {"Kinds": '{"fc"}', "WidthSet": "{2, 7}", "OffSet": "{0}", "SizeSet": "{2}",
+                                              "RowSet": "{2, 3}", "KSet": "{2}", "NBufs": "{2}", "MaxChans": "2"}, 1)],
     "thorough": [("TdmsDaqmx", "TdmsDaqmx.cfg", {}, 1),
                  ("TdmsDaqmx", "TdmsDaqmx.cfg", {"WidthSet": "{9}", "OffSet": "{1, 5}", "SizeSet": "{4}", "RowSet": "{2}",
                                                  "KSet": "{3}", "Kinds": '{"fc"}'}, 1),
